@@ -340,6 +340,27 @@ Fixpoint read_rec_headers (n : nat) {struct n} : M (list (list N * list N)) :=
     ret ((k, v) :: rest)
   end.
 
+(* readMessageV2, second half: one record from the current frame *)
+Definition read_v2_record : M (Z * Z * Z * list N * list N * list (list N * list N)) :=
+  f0 <- top ;;
+  length <- lift p_varint ;;
+  f1 <- top ;;
+  let length_of_length := f_remain f0 - f_remain f1 in
+  attrs <- lift (p_int 1) ;;
+  tsd <- lift p_varint ;;
+  od <- lift p_varint ;;
+  k <- (kl <- lift p_varint ;; lift (p_newbytes kl)) ;;
+  v <- (vl <- lift p_varint ;; lift (p_newbytes vl)) ;;
+  hc <- lift p_varint ;;
+  f2 <- top ;;
+  hs <- read_rec_headers (Z.to_nat (Z.min hc (f_remain f2 + 1))) ;;
+  f3 <- top ;;
+  let h3 := f_hdr f3 in
+  lr <- get_lrem ;;
+  set_lrem (lr - (length + length_of_length)) ;;;
+  mark_read ;;;
+  ret (wrap64 (h_first h3 + od), wrap64 (h_first h3 + h_lod h3), wrap64 (h_ts h3 + tsd), k, v, hs).
+
 (* readMessageV2: (offset, lastOffset, timestamp, key, value, headers) *)
 Definition read_v2 (fuel : nat) : M (Z * Z * Z * list N * list N * list (list N * list N)) :=
   read_header fuel ;;;
@@ -364,24 +385,7 @@ Definition read_v2 (fuel : nat) : M (Z * Z * Z * list N * list N * list (list N 
                    end)
      end
    else ret tt) ;;;
-  f0 <- top ;;
-  length <- lift p_varint ;;
-  f1 <- top ;;
-  let length_of_length := f_remain f0 - f_remain f1 in
-  attrs <- lift (p_int 1) ;;
-  tsd <- lift p_varint ;;
-  od <- lift p_varint ;;
-  k <- (kl <- lift p_varint ;; lift (p_newbytes kl)) ;;
-  v <- (vl <- lift p_varint ;; lift (p_newbytes vl)) ;;
-  hc <- lift p_varint ;;
-  f2 <- top ;;
-  hs <- read_rec_headers (Z.to_nat (Z.min hc (f_remain f2 + 1))) ;;
-  f3 <- top ;;
-  let h3 := f_hdr f3 in
-  lr <- get_lrem ;;
-  set_lrem (lr - (length + length_of_length)) ;;;
-  mark_read ;;;
-  ret (wrap64 (h_first h3 + od), wrap64 (h_first h3 + h_lod h3), wrap64 (h_ts h3 + tsd), k, v, hs).
+  read_v2_record.
 
 (* a decoded message as Batch.ReadMessage returns it (nil and empty key/value coincide) *)
 Record msg := mkMsg {
